@@ -12,51 +12,74 @@ RT_NOTE = ("Trusted base: Lean 4.33 kernel (+ leanchecker in the thorough tier);
            "under ASan/UBSan/LSan vs. compiled Lean driver); harness/sigc_harness.cc; generator/differ/shrinker in "
            "checks/runtime.py; g++ 12 / libstdc++ 12. The theorems are about the model, not about the C++.")
 
-RT_TEXT = ("Lean 4 theorems about the executable mechanism model of the runtime core (Sigc/Props/%s.lean, all audited with "
-           "#print axioms on every run) + correspondence check on every run: the real library, built from /repo's current "
-           "working tree with ASan/UBSan/LSan, the mechanism model and the statement-level specification are run on the "
-           "directed corpus and on generated programs of the operation language; a trace of the real library that the "
-           "specification does not allow (or a sanitizer report) is reported with the shrunk program as replay; a "
-           "model/implementation difference or a theorem that no longer checks is reported as no-failing-input-found. %s")
+RT_TEXT = ("Lean 4 theorems about the executable mechanism model P of the runtime core and the executable statement-level "
+           "specification S (Sigc/Props/%s.lean and the shared Props/Refine.lean — P is allowed by S' = S with the two known "
+           "findings reproduced, for every program, including the harness teardown and the printed text: refines, "
+           "runProgram_refines —, Props/SpecK.lean — S' = S on every run the executable predicate clearTop accepts —, "
+           "Props/SpecProps.lean — the statements read off S; all audited with #print axioms on every run) + correspondence "
+           "check on every run: the real library, built from /repo's current working tree with ASan/UBSan/LSan, P and S are "
+           "run on the directed corpus and on generated programs of the total operation language (docs/LANGUAGE.md); a trace "
+           "of the real library that the specification does not allow (or a sanitizer report) is reported with the shrunk "
+           "program as replay; a model/implementation difference or a theorem that no longer checks is reported as "
+           "no-failing-input-found. %s")
+
+SLOTG = (" Object graphs among slot *variables* (connection(slot_base&), slots with a parent through std::ref, self-owning "
+         "cycles) are covered by the SlotG component: model lean/Sigc/SlotG.lean, 30 theorems in Props/SlotG.lean (audited "
+         "here), own harness and generator (checks/slotg.py, docs/SLOTG.md), merged into this check's correspondence.")
 
 CHECKS = {
     "C01": ("§5 C01", "Theorems: connect appends / connect_first prepends; one step of the emitter invokes exactly a valid, "
-            "unblocked cell and skips empty/blocked/marker cells; all-history snapshot theorem in Sigc/Lemmas/Emit*.lean as it "
-            "lands (see evidence.partial_obligations).", "Lean proof + differential correspondence (model/spec vs real library)"),
-    "C02": ("§5 C02", "Theorems: after notify_callbacks()/destruction of a trackable no slot variable refers to it, those that "
-            "did are empty and hold no functor copy, the others are untouched (all states, all nestings).",
+            "unblocked cell and skips empty/blocked/marker cells; turns_eq_snapshot: for every program and nesting, the "
+            "slots an emission offers a turn are exactly the snapshot taken when it started (Sigc/Lemmas/Emit*.lean). "
+            "Known finding K1 is replayed.", "Lean proof + differential correspondence (model/spec vs real library)"),
+    "C02": ("§5 C02", "Theorems: after notify_callbacks()/destruction of a trackable no slot variable and no list cell refers "
+            "to it, those that did are empty and hold no functor copy, the others are untouched; tracks_live: in every "
+            "reachable state, at every operation boundary at any nesting depth and after teardown, every tracked object is "
+            "alive. The correspondence also samples adaptor expressions through the C09 machinery.",
             "Lean proof + differential correspondence under ASan"),
-    "C03": ("§5 C03", "Theorems: the deferral rule (no erase while exec>0, immediate erase when idle), unreference_exec sweeps "
-            "exactly at zero, sweep leaves no empty cell; the all-history Inv/Frame safety theorem is in progress.",
-            "Lean proof + differential correspondence under ASan (re-entrant bodies)"),
+    "C03": ("§5 C03", "Theorems: safe / safe_inside (no reachable state of any program, inside or outside emissions at any "
+            "depth, has an iterator invalidated, an end marker missing, a list destroyed during its emission or a forwarder to "
+            "a dead signal: invariant Inv + frame relation, mutual induction on fuel), frame, emit_restores_exec, "
+            "quiescent_clean, owned_not_pinned, the deferral rule. Known finding F6 is replayed.",
+            "Lean proof + differential correspondence under ASan (re-entrant bodies, owning functors)"),
     "C04": ("§5 C04", "Theorems: connected() iff the cell is still in a list and valid; erasing a cell nulls every connection "
-            "and scoped connection to it and no other; connection-variable operations touch nothing else.",
-            "Lean proof + differential correspondence under ASan"),
+            "and scoped connection to it and no other; connection-variable operations touch nothing else; all-history: a "
+            "connection never dangles." + SLOTG, "Lean proof + differential correspondence under ASan"),
     "C06": ("§5 C06", "Theorems: the last reference to a list destroys it and nulls the connections into it; a referenced or "
-            "emitting list survives; destroying connection / slot variables touches nothing else.",
+            "emitting list survives; destroying connection / slot variables touches nothing else; all-history invariants (no "
+            "orphan lists, registrations balance, after teardown in any order everything is empty, ownedG_named)." + SLOTG,
             "Lean proof + differential correspondence under ASan/LSan with teardown permutations"),
     "C07": ("§5 C07", "Theorems: functor copies live only in representations of slot variables and list cells; invalidation "
-            "releases the copy; sweep/erase remove exactly the cells they should. The harness additionally counts live functor "
-            "copies (live?), LeakSanitizer checks the end of every program, and state-restoring cycles are compared at 2 vs 40 "
-            "repetitions.", "Lean proof + differential correspondence under LSan + allocation-growth cycles"),
-    "C08": ("§5 C08", "Theorems: a body stops at the first escaping exception, the emitter stops at the throwing slot, emit "
-            "propagates / tryemit catches.", "Lean proof + differential correspondence with exception injection"),
+            "releases the copy; sweep/erase remove exactly the cells they should; all-history accounting. The harness "
+            "additionally counts live functor copies (live?), LeakSanitizer checks the end of every program, and "
+            "state-restoring cycles are compared at 2 vs 40 repetitions.",
+            "Lean proof + differential correspondence under LSan + allocation-growth cycles"),
+    "C08": ("§5 C08", "Theorems: consistent / consistent_quiescent (after an exception escapes an emission at any depth the "
+            "signal is as consistent as after a normal return), propagates, a body stops at the first escaping exception, the "
+            "emitter stops at the throwing slot. The harness throws three dynamic exception types and makes emissions during "
+            "stack unwinding.", "Lean proof + differential correspondence with exception injection"),
     "C12": ("§5 C12", "Theorems: block() returns the previous state and affects only that slot; signal.block sets exactly the "
-            "current cells; blocked() iff all (vacuous cases); the emitter skips a blocked cell.",
-            "Lean proof + differential correspondence"),
-    "C13": ("§5 C13", "Theorems about slot_iterator_buf::operator*: dereferencing twice invokes once, blocked/invalid/marker "
-            "positions are never invoked, a callable position buffers the result; never-connected signal returns the default.",
+            "current cells; blocked() iff all (vacuous cases); the emitter skips a blocked cell; the Step family for "
+            "connections and scoped connections." + SLOTG, "Lean proof + differential correspondence"),
+    "C13": ("§5 C13", "Theorems about slot_iterator_buf::operator* and the accumulator call: dereferencing twice invokes once, "
+            "blocked/invalid/marker positions are never invoked, a callable position buffers the result, the accumulator is "
+            "called exactly once over [first, marker), never-connected signal returns the default, last-value and "
+            "bidirectional-walk families. Known finding K2 is replayed.",
             "Lean proof + differential correspondence with accumulator strategies"),
-    "C14": ("§5 C14", "Theorems: impl() creates the list on demand; move construction transfers the list and empties the "
-            "source.", "Lean proof + differential correspondence"),
+    "C14": ("§5 C14", "Theorems: impl() creates the list on demand; copy/assignment share, move transfers and empties the "
+            "source, last owner tears down, a functor-owned handle keeps the list and dies in collect "
+            "(functor_owned_handle_keeps_list, collect_drops_unheld_owned_handle_wf, run_leaves_owned_handles_held).",
+            "Lean proof + differential correspondence"),
     "C15": ("§5 C15", "Theorems about the slot-value layer: default empty; copy of empty/invalidated is empty; copy of valid "
             "keeps functor and blocking state; move empties the source and preserves behaviour; disconnect empties; copy "
-            "construction is independent state.", "Lean proof + differential correspondence"),
+            "construction is independent state; all four assignment branches; S agrees with P on slot operations." + SLOTG,
+            "Lean proof + differential correspondence"),
     "C17": ("§5 C17", "Theorems: move construction, swap and release transfer without disconnecting; destruction and "
-            "disconnect() disconnect exactly the held cell.", "Lean proof + differential correspondence"),
+            "disconnect() disconnect exactly the held cell; an owned scoped connection lives while a functor copy holds it.",
+            "Lean proof + differential correspondence"),
     "C18": ("§5 C18", "Theorems: a make_slot() forwarder emits its target with the same argument and yields its result; it "
-            "tracks the target iff that is a trackable_signal; a copy has a fresh trackable identity; destroying a "
-            "trackable_signal invalidates every slot variable forwarding to it.",
+            "tracks the target iff that is a trackable_signal; a copy has a fresh trackable identity; destroying (or moving "
+            "from) a trackable_signal invalidates every slot forwarding to it.",
             "Lean proof + differential correspondence under ASan"),
 }
 
